@@ -153,7 +153,7 @@ def self_field_flows(fn, adt_path, self_local=1):
                         changed = True
 
     def rec(key):
-        return res.setdefault(key, {"projected": False, "calls": set(), "identity_agg": [], "closure": set(), "returned": False, "read_blocks": set()})
+        return res.setdefault(key, {"projected": False, "calls": set(), "identity_agg": [], "closure": set(), "returned": False, "read_blocks": set(), "terms": []})
 
     for key in taint.get(0, ()):
         rec(key)["returned"] = True
@@ -217,6 +217,7 @@ def self_field_flows(fn, adt_path, self_local=1):
                 for key in seeds_of_place(pl):
                     if not mir.is_transparent(t, IDENTITY_CALLS[len(mir.TRANSPARENT):]):
                         rec(key)["calls"].add(mir.callee_of(t))
+                        rec(key)["terms"].append(t)
     # whole-self identity: `_0 = Ok(move _1)` or `_0 = move _1` -- every field of every variant
     whole = []
     tw = {self_local}
@@ -357,11 +358,42 @@ def skipping_path(fn, adt, variant_discr, read_blocks, self_local=1):
     return None
 
 
+ADAPTORS = ("map", "all", "any", "flat_map", "filter_map", "for_each", "fold", "try_fold", "filter", "find_map", "try_for_each", "map_while", "and_then", "then", "inspect", "zip", "chain", "unwrap_or_else", "map_or", "map_or_else", "is_some_and")
+
+
+def _is_recursing_call(F, t, family_traits, depth=0):
+    """does this call hand its argument to the traversal again: a method of one of the family's traits, a callback
+    (`f(x)`), or an iterator / Option adaptor whose closure or fn-item argument does"""
+    tr = t.get("trait") or ""
+    if tr in family_traits:
+        return True
+    c = t.get("callee") or ""
+    if c.startswith(("std::ops::Fn::call", "std::ops::FnMut::call_mut", "std::ops::FnOnce::call_once")):
+        return True
+    name = c.split("::")[-1]
+    if name in ADAPTORS and (c.startswith("std::iter::") or c.startswith("std::option::Option") or c.startswith("std::result::Result") or "slice" in c or "Vec" in c):
+        for r in list(t.get("fnrefs") or []):
+            g = F.fns.get(r)
+            if g is None:
+                continue
+            if g.get("impl_trait") in family_traits:
+                return True
+            if depth < 3:
+                for h in [g] + [x for x in F.fns.values() if x.get("owner") == g["path"]]:
+                    for bi, t2 in mir.calls(h):
+                        if _is_recursing_call(F, t2, family_traits, depth + 1):
+                            return True
+        # adaptor without an inspectable closure (e.g. `.map(Into::into)`): cannot tell -> treat as recursing (no alarm)
+        if not (t.get("fnrefs") or []):
+            return True
+    return False
+
+
 BYVAL = "val"
 BYREF = "ref"
 
 
-def check_impl_method(F, fn, adt_path, fam, mode, rule, rows, method_sem=None, self_local=1, must_paths=True, path_ok_blocks=None):
+def check_impl_method(F, fn, adt_path, fam, mode, rule, rows, method_sem=None, self_local=1, must_paths=True, path_ok_blocks=None, family_traits=None):
     """obligations for one impl method on ADT adt_path.
 
     rows: dict (fn path, variant, field) -> reason  (reviewed exceptions)
@@ -394,6 +426,10 @@ def check_impl_method(F, fn, adt_path, fam, mode, rule, rows, method_sem=None, s
                     fld, adt_path.split("::")[-1], var, ty, fn["path"].split("::")[-1]))
             else:
                 problems.append("field `%s` of `%s::%s` is read but never passed to a call" % (fld, adt_path.split("::")[-1], var))
+        if visited and family_traits and fl["terms"] and not (mode == BYREF and fl["returned"]) and fn.get("name") != "components":
+            if not any(_is_recursing_call(F, t, family_traits) for t in fl["terms"]):
+                problems.append("field `%s` of `%s::%s` only flows into calls that do not continue the traversal (%s): its children are not visited by %s" % (
+                    fld, adt_path.split("::")[-1], var, ", ".join(sorted({mir.callee_of(t).split("::")[-1] for t in fl["terms"]}))[:120], fn["path"].split("::")[-1]))
         if visited and method_sem != "is_constant" and must_paths:
             extra_ok = path_ok_blocks(fn) if path_ok_blocks else set()
             ln = skipping_path(fn, adt_path, discr_of.get(var) if adt["is_enum"] else None, set(fl["read_blocks"]) | extra_ok, self_local)
